@@ -12,6 +12,10 @@ import ParryModel.C08.Theorems6
 import ParryModel.C08.Theorems7
 import ParryModel.C08.Theorems8
 import ParryModel.C08.Theorems9
+import ParryModel.C08.Theorems10
+import ParryModel.C08.Theorems11
+import ParryModel.C08.Theorems12
+import ParryModel.C08.Theorems13
 /-!
 # C08 property theorems: the QBVH stays valid under any history
 
